@@ -402,6 +402,25 @@ func (w *vfWorld) dump(name string) (items []vfKV, count int64, err error) {
 	return
 }
 
+// find looks key k up in a fresh read-only transaction.
+func (w *vfWorld) find(name string, k int) bool {
+	armed := w.armed
+	w.armed = false
+	defer func() { w.armed = armed }()
+	ctx := context.Background()
+	t := w.newTx(sop.ForReading)
+	if t.Begin(ctx) != nil {
+		return false
+	}
+	defer t.Rollback(ctx)
+	b3, e := OpenBtree[int, string](ctx, name, t, nil)
+	if e != nil {
+		return false
+	}
+	ok, e := b3.Find(ctx, k, false)
+	return ok && e == nil
+}
+
 func vfSameItems(a, b []vfKV) bool {
 	if len(a) != len(b) {
 		return false
